@@ -49,7 +49,10 @@ class StmtMixin:
         if isinstance(v, ast.Yield):
             for s1, x in self.ev(v.value, st):
                 y = s1.env.get("__yielded__")
-                if y is None: raise VCError("yield in a function whose contract has no 'yields'")
+                if y is None:
+                    # the contract promises an ordinary (re-iterable) value but the body is a generator: a single-use iterator is not a list
+                    self.oblige(s1, z3.BoolVal(False), "function-became-a-generator-but-its-contract-returns-a-value", node)
+                    raise VCError("yield in a function whose contract has no 'yields'")
                 ty = y.ty; n = T.list_len(ty, y.t)
                 s1.env["__yielded__"] = SV(ty, T.list_mk(ty, n + 1, z3.Store(T.list_arr(ty, y.t), n, self.coerce(x, ty.t).t)))
                 yield "fall", s1, None
@@ -130,6 +133,10 @@ class StmtMixin:
                     x, y = self.unify(cur, val); val = y
             st.env[tgt.id] = SV(val.ty, val.t, cls=val.cls)
             yield st; return
+        if isinstance(tgt, ast.Call) and isinstance(tgt.func, ast.Attribute) and tgt.func.attr == "setdefault" and len(tgt.args) == 2:
+            # write-back through  d.setdefault(k, default)  (the value it returned was mutated in place): same cell as d[k]
+            sub = ast.copy_location(ast.Subscript(value=tgt.func.value, slice=tgt.args[0], ctx=ast.Store()), tgt)
+            yield from self.assign(sub, val, st, quiet=True); return
         if isinstance(tgt, (ast.Tuple, ast.List)):
             if val.ty == Display: parts = val.t
             elif isinstance(val.ty, T.Tup): parts = [SV(t, T.tup_get(val.ty, val.t, i)) for i, t in enumerate(val.ty.ts)]
